@@ -141,6 +141,11 @@ func (n *LocalNode) RequestToJoin(joiner chord.VNode) (chord.VNode, []chord.VNod
 	}()
 
 	prevPredecessor = n.predecessor
+	if prevPredecessor == nil {
+		// our predecessor failed and was dropped, and the new one has not notified us
+		// yet: we do not know our range, have the joiner retry instead of dereferencing nil
+		return nil, nil, chord.ErrJoinInvalidState
+	}
 
 	// see issue https://github.com/zllovesuki/specter/issues/23
 	if !chord.Between(prevPredecessor.ID(), joiner.ID(), n.ID(), false) {
